@@ -56,3 +56,27 @@ def cliParseFieldTolerancesSrc : Fc.PyLite.Fn := {
     ] [],
     .ret (.ext "FieldToleranceMap" [])
   ] }
+
+/-- translated from the source text of `fieldcompare/_cli/_common.py: PatternFilter.__init__` -/
+def cliPatternFilterInitSrc : Fc.PyLite.Fn := {
+  name := "PatternFilter.__init__"
+  params := ["v0"]
+  body := [
+    .assign "v1" (.var "v0"),
+    .assign "v2" (.lit (.dict [])),
+    .setIndex "v2" (.lit (.str "_patterns")) (.var "v1"),
+    .ret (.var "v2")
+  ] }
+
+/-- translated from the source text of `fieldcompare/_cli/_common.py: FieldToleranceMap.__init__` -/
+def cliFieldToleranceMapInitSrc : Fc.PyLite.Fn := {
+  name := "FieldToleranceMap.__init__"
+  params := ["v0", "v1"]
+  body := [
+    .assign "v2" (.or (.var "v0") (.lit (.dict []))),
+    .assign "v3" (.var "v1"),
+    .assign "v4" (.lit (.dict [])),
+    .setIndex "v4" (.lit (.str "_default")) (.var "v3"),
+    .setIndex "v4" (.lit (.str "_field_tolerances")) (.var "v2"),
+    .ret (.var "v4")
+  ] }
